@@ -1,11 +1,19 @@
 (* model-side driver for C12 (a): one derivation per line
-     <id> T <vm_os> <ctx> [HC <ctx> | HL <ctx> | S | Y | I | F]*      (0 = none, k = recording OS k)
+     <id> T <vm_os> <ctx> [HC <ctx> | HL <ctx> | S | Y | I | F | N <layer> <vm_os>]*
+   (0 = none, k = recording OS k; a <ctx> of several decimal digits is a LAYERED context: 12 = WithOS(WithOS(bg, os1), os2),
+   computed by the model's ctx_of_layers; N = a host builtin starts a nested evaluation on the context it received,
+   layered with os <layer> if that is not 0, with the WithOS option <vm_os>)
    prints  <id> TAB <effective os>   (0 = the real operating system) *)
 open Osprop_model
 
 let rec nat_of_int i = if i <= 0 then O else S (nat_of_int (i - 1))
 let rec int_of_nat = function O -> 0 | S n -> 1 + int_of_nat n
 let opt i = if i = 0 then None else Some (nat_of_int i)
+(* a host context: the decimal digits are the layers, first placed first *)
+let ctx (s : string) =
+  let ls = ref [] in
+  String.iter (fun c -> if c <> '0' then ls := nat_of_int (Char.code c - 48) :: !ls) s;
+  mk_layers (List.rev !ls)
 
 let () =
   try
@@ -13,10 +21,11 @@ let () =
       let line = input_line stdin in
       match String.split_on_char ' ' line with
       | id :: "T" :: v :: c :: rest ->
-        let d = ref (mk_top (opt (int_of_string v)) (opt (int_of_string c))) in
+        let d = ref (mk_top (opt (int_of_string v)) (ctx c)) in
         let rec go = function
-          | "HC" :: c :: r -> d := mk_hostcall !d (opt (int_of_string c)); go r
-          | "HL" :: c :: r -> d := mk_hostclone !d (opt (int_of_string c)); go r
+          | "HC" :: c :: r -> d := mk_hostcall !d (ctx c); go r
+          | "HL" :: c :: r -> d := mk_hostclone !d (ctx c); go r
+          | "N" :: l :: v :: r -> d := mk_nest !d (opt (int_of_string l)) (opt (int_of_string v)); go r
           | "S" :: r -> d := mk_spawn !d; go r
           | "Y" :: r -> d := mk_clonesync !d; go r
           | "I" :: r -> d := mk_import !d; go r
